@@ -41,8 +41,8 @@ ASSUMPTIONS = [
     "a pipeline the checker refuses (optimisation with step 2) has no margins to report and is counted as trivial; "
     "which pipelines are accepted is C01's and C05's business",
     "semantic_segmentation is not in the menu (no built-in method; it bears no margin)",
-    "quick: length <= 5, menu of 5 matching costs, 3 cost-volume steps, 10 disparity-map steps, 4 of the 8 environments "
-    "(complete on shape x step, naming alternating); thorough: length <= 5 on the full menu with all 8 environments, "
+    "quick: length <= 5, menu of 5 matching costs, 3 cost-volume steps, 10 disparity-map steps, 6 of the 12 environments "
+    "(complete on shape x step, naming alternating); thorough: length <= 5 on the full menu with all 12 environments, "
     "length 6 on the quick menu with the 4 environments, "
     "length 7 on a reduced menu (no state merging is used: everything is enumerated unmerged)",
     "other machines = fresh PandoraMachine objects of the same process checking margin-heavy pipelines before and after",
@@ -87,9 +87,11 @@ MENUS = {
                     "ms"]},
     "reduced": {"mc": ["sad3", "sad7"], "cv": ["cbca", "opt"], "dm": ["med3", "bil1", "vfit", "cross", "ms"]},
 }
-SHAPES = [(6, 8), (200, 300)]
-ENVS_ALL = [(sh, st, nm) for sh in (0, 1) for st in (1, 2) for nm in ("plain", "sfx")]
-ENVS_QUICK = [(0, 1, "plain"), (1, 1, "sfx"), (0, 2, "sfx"), (1, 2, "plain")]
+# small images in both orientations (the bilateral margin is min(rows, cols, int(3 sigma + 1)): rows < cols and
+# cols < rows must both occur, each smaller than the window), and a large one
+SHAPES = [(6, 8), (200, 300), (9, 5)]
+ENVS_ALL = [(sh, st, nm) for sh in (0, 1, 2) for st in (1, 2) for nm in ("plain", "sfx")]
+ENVS_QUICK = [(0, 1, "plain"), (1, 1, "sfx"), (0, 2, "sfx"), (1, 2, "plain"), (2, 1, "sfx"), (2, 2, "plain")]
 
 NOISE_BEFORE = ["zncc9", "opt", "cbca", "wta", "med5", "bil6", "cross"]
 NOISE_AFTER = ["sad7", "opt", "opt", "wta", "mfi5", "bil", "vfit"]
@@ -245,14 +247,14 @@ def evaluate(tokens, env, viol, sigs, independence=False):
 
     with Pandora2D(mc_step != 1):
         if independence:
-            real_margins(build(NOISE_BEFORE, 1, "plain"), SHAPES[1 - env[0]])
+            real_margins(build(NOISE_BEFORE, 1, "plain"), SHAPES[(env[0] + 1) % len(SHAPES)])
         res = real_margins(steps, shape)
         if res[0] != "ok":
             return None
         got = res[1]
         machine = res[2]
         if independence:
-            real_margins(build(NOISE_AFTER, 1, "sfx"), SHAPES[1 - env[0]])
+            real_margins(build(NOISE_AFTER, 1, "sfx"), SHAPES[(env[0] + 1) % len(SHAPES)])
             later = machine.margins.to_dict()
             if later != got:
                 bad("independence", "changed-by-later-check", f"margins of a machine changed after ANOTHER machine "
@@ -391,7 +393,7 @@ def spaces(tier, seed):
         graph = [{"sp": "graph", "menu": "quick", "envs": "quick", "p": p} for p in parents]
         extra = []
     else:
-        # full menu and all 8 environments up to length 5; the layer 5 -> 6 on the quick menu with the 4
+        # full menu and all 12 environments up to length 5; the layer 5 -> 6 on the quick menu with the 4
         # (shape x step)-complete environments
         graph = [{"sp": "graph", "menu": "full", "envs": "all", "p": p} for p in walk(MENUS["full"], 4)]
         graph += [{"sp": "graph", "menu": "quick", "envs": "quick", "p": p} for p in walk(MENUS["quick"], 5)
